@@ -51,6 +51,15 @@ Theorem C02_sro_members : forall reorder : list node -> list node,
 Proof. exact sro_members_lemma. Qed.
 Print Assumptions C02_sro_members.
 
+(* ... each of them once *)
+Theorem C02_sro_nodup : forall reorder : list node -> list node,
+  (forall l y, In y (reorder l) <-> In y l) ->
+  forall ops, hist_ok reorder init ops = true ->
+  let st := fold_left (step reorder) ops init in
+  forall S, In S (live st) -> NoDup (get_sro st S).
+Proof. exact sro_nodup_lemma. Qed.
+Print Assumptions C02_sro_nodup.
+
 (* after any history every live specification's cached __sro__ IS the order a freshly built
    graph of the current shape has: nothing stale survives a rebasing anywhere in the graph *)
 Theorem C02_sro_coherent : forall reorder : list node -> list node,
